@@ -113,7 +113,7 @@ var (
 		"ForEachString": true, "ForEachBool": true, "ForEachInt": true, "ForEachFloat": true, "ForEachAsync": true, "SetTF": true, "UnsetTF": true}
 )
 
-const c19StoreWays = 14
+const c19StoreWays = 17
 
 func GenC19(t *rapid.T) *C19Case {
 	c := &C19Case{Depth: drawInt(t, 1, 3, "depth"), IsObject: drawBool(t, "isobject"), Store: drawIdx(t, c19StoreWays, "store"), InitEveryLevel: drawBool(t, "initeach")}
@@ -320,7 +320,8 @@ func storageCheck(d any, way int, st *Stats) error {
 	dl, isList := d.(at.List)
 	do, _ := d.(at.Object)
 	ways := []string{"NewList", "NewListOf", "NewListFrom[]any", "NewListFrom typed", "Add", "Insert", "Replace", "list.SetTF",
-		"NewObject", "NewObjectFrom map[string]any", "NewObjectFrom typed", "Set", "object.SetTF", "nested SetTF"}
+		"NewObject", "NewObjectFrom map[string]any", "NewObjectFrom typed", "Set", "object.SetTF", "nested SetTF",
+		"Replace over an equal container", "Set over an equal container", "SetTF over an equal container"}
 	name := ways[way%len(ways)]
 	st.Count("store." + name)
 	idx, key := 1, "k"
@@ -359,6 +360,13 @@ func storageCheck(d any, way int, st *Stats) error {
 		hostO = at.NewObject("a", 1).Set("k", d)
 	case "object.SetTF":
 		hostO = at.NewObject("a", 1).SetTF(".k", d)
+	case "Replace over an equal container":
+		// the slot already holds a plain container with the same content: the derived value must still replace it
+		hostL = at.NewList("x", cloneOf(d), "z").Replace(1, d)
+	case "Set over an equal container":
+		hostO = at.NewObject("a", 1, "k", cloneOf(d)).Set("k", d)
+	case "SetTF over an equal container":
+		hostO = at.NewObject("a", 1, "k", cloneOf(d)).SetTF(".k", d)
 	case "nested SetTF":
 		hostO = at.NewObject().SetTF(".a#1", d)
 		hostL, idx = hostO.GetList("a"), 1
